@@ -250,7 +250,35 @@ fn gen_keeper_doc(r: &mut Rng, procs: &Value, serial: u64, hostga_follows_wire: 
     }
 }
 
+/// a status document that parses but does not validate (a required field missing or out of range) and that carries
+/// rule sets of its own: a poll that gets it "returns an invalid document" and must change nothing
+fn invalid_status_doc(r: &mut Rng) -> String {
+    let serial = r.below(1_000_000);
+    let rules = json!({
+        "imds": grant_all_item(&format!("inv-imds-{}", serial), *r.pick(&["audit", "enforce", "disabled"]), *r.pick(&["allow", "deny"]), None),
+        "wireserver": grant_all_item(&format!("inv-ws-{}", serial), *r.pick(&["audit", "enforce", "disabled"]), *r.pick(&["allow", "deny"]), None),
+        "hostga": grant_all_item(&format!("inv-ga-{}", serial), *r.pick(&["audit", "enforce"]), "allow", None),
+    });
+    let mut d = match r.below(4) {
+        // version 2.0 without secureChannelEnabled
+        0 => json!({"authorizationScheme": "Azure-HMAC-SHA256", "keyDeliveryMethod": "http", "keyGuid": null, "version": "2.0", "authorizationRules": rules}),
+        // version 1.0 with an unknown secureChannelState
+        1 => json!({"authorizationScheme": "Azure-HMAC-SHA256", "keyDeliveryMethod": "http", "keyGuid": null, "version": "1.0", "secureChannelState": "sometimes", "requiredClaimsHeaderPairs": ["isRoot"], "authorizationRules": rules}),
+        // version 1.0 without secureChannelState
+        2 => json!({"authorizationScheme": "Azure-HMAC-SHA256", "keyDeliveryMethod": "http", "keyGuid": null, "version": "1.0", "requiredClaimsHeaderPairs": ["isRoot"], "authorizationRules": rules}),
+        // neither
+        _ => json!({"authorizationScheme": "Azure-HMAC-SHA256", "keyDeliveryMethod": "http", "keyGuid": null, "version": "3.0", "authorizationRules": rules}),
+    };
+    if r.chance(1, 4) {
+        d["secureChannelState"] = json!("Bogus");
+    }
+    d.to_string()
+}
+
 fn gen_host_fault(r: &mut Rng, kind: &str) -> Value {
+    if kind == "status" && r.chance(1, 4) {
+        return json!({"t": "host_fault", "kind": kind, "fault": {"f": "malformed", "body": invalid_status_doc(r), "ctype": "application/json; charset=utf-8"}});
+    }
     let f = match r.below(7) {
         0 => json!({"f": "status", "status": *r.pick(&[500u64, 503, 404, 429])}),
         1 => json!({"f": "malformed", "body": *r.pick(&["{", "not json", "{\"authorizationScheme\": 5}", "[]", ""]), "ctype": "application/json"}),
@@ -635,6 +663,12 @@ pub fn gen_c12(seed: u64, tier: &str) -> Value {
         // restricting the directory fails at start-up
         disk_faults.push(json!({"op": *r.pick(&["chmod", "chown"]), "path": "azure-proxy-agent/keys", "nth": 1, "errno": 1, "short": 0}));
     }
+    let mut never_restricted = false;
+    if r.chance(1, 8) {
+        // the directory can never be restricted (every chmod fails): no key may ever be written into it
+        disk_faults.push(json!({"op": "chmod", "path": "azure-proxy-agent/keys", "nth": 0, "errno": *r.pick(&[1i64, 30]), "short": 0}));
+        never_restricted = true;
+    }
     if r.chance(1, 4) {
         // saving a key fails: creating or writing the temporary file, or renaming it into place (full disk, I/O error)
         for _ in 0..1 + r.below(2) {
@@ -646,12 +680,52 @@ pub fn gen_c12(seed: u64, tier: &str) -> Value {
         "scenario": "keeper:C12", "seed": seed, "family": "keeper", "prop": "C12", "disk_faults": disk_faults,
         "knobs": knobs, "procs": procs, "users": users_json(), "steps": steps, "oracles": ["C12"],
         "key_hex_upper": r.chance(1, 2),
-        "config": {"pollKeyStatusIntervalInSeconds": 1 + r.below(10)}, "settle_ms": 1000, "faulty": true,
+        // (a host that is asked for a fresh key at every poll issues hundreds of keys per run, each one a taint to look
+        // for: such runs poll slowly)
+        "config": {"pollKeyStatusIntervalInSeconds": if never_restricted { 20 + r.below(20) } else { 1 + r.below(10) }}, "settle_ms": 1000, "faulty": true,
     })
 }
 
 fn run_stat_c12_recreated(run: &mut Run) {
     run.stat("c12.key_dir_created_or_removed", 1);
+}
+
+/// all taints at once: index by the first 8 bytes, one pass over the haystack; returns (position, taint index) of the
+/// first hit (taints shorter than 8 bytes do not occur: key values are 32 bytes raw or 64 hex characters)
+struct TaintIndex<'a> {
+    by_prefix: std::collections::HashMap<[u8; 8], Vec<usize>>,
+    taints: &'a [(String, Vec<u8>)],
+}
+impl<'a> TaintIndex<'a> {
+    fn new(taints: &'a [(String, Vec<u8>)]) -> Self {
+        let mut by_prefix: std::collections::HashMap<[u8; 8], Vec<usize>> = std::collections::HashMap::new();
+        for (i, (_, t)) in taints.iter().enumerate() {
+            if t.len() >= 8 {
+                let mut p = [0u8; 8];
+                p.copy_from_slice(&t[..8]);
+                by_prefix.entry(p).or_default().push(i);
+            }
+        }
+        TaintIndex { by_prefix, taints }
+    }
+    fn first_hit(&self, hay: &[u8]) -> Option<(usize, usize)> {
+        if hay.len() < 8 {
+            return None;
+        }
+        for pos in 0..=hay.len() - 8 {
+            let mut p = [0u8; 8];
+            p.copy_from_slice(&hay[pos..pos + 8]);
+            if let Some(c) = self.by_prefix.get(&p) {
+                for &i in c {
+                    let t = &self.taints[i].1;
+                    if hay.len() - pos >= t.len() && &hay[pos..pos + t.len()] == t.as_slice() {
+                        return Some((pos, i));
+                    }
+                }
+            }
+        }
+        None
+    }
 }
 
 fn find(hay: &[u8], needle: &[u8]) -> Option<usize> {
@@ -681,6 +755,7 @@ pub fn check_c12(run: &mut Run) {
     let mut viol: Vec<(String, String)> = Vec::new();
     let mut scanned = 0i64;
     let mut scanned_bytes = 0i64;
+    let index = TaintIndex::new(&taints);
     let cap = crate::seams::take_capture();
     for (class, data) in cap.iter() {
         let is_key_file = class.starts_with(key_dir) && (class.ends_with(".key") || class.ends_with(".tmp")) && !class.contains("status.tag");
@@ -689,14 +764,14 @@ pub fn check_c12(run: &mut Run) {
         }
         scanned += 1;
         scanned_bytes += data.len() as i64;
-        for (guid, t) in taints.iter() {
-            if let Some(pos) = find(data, t) {
+        if let Some((pos, ti)) = index.first_hit(data) {
+            let guid = &taints[ti].0;
+            {
                 let a = pos.saturating_sub(160);
                 let ctx = String::from_utf8_lossy(&data[a..pos]).replace(|c: char| c.is_control(), " ");
                 let sink = if class.starts_with("/var/log/azure-proxy-agent/events") { "telemetry event file".to_string() } else { class.clone() };
                 let site = ["Failed to json deserialize", "Failed to xml deserialize", "Hex encoded key", "Failed to attest", "Failed to acquire", "compute_signature"].iter().find(|s| ctx.contains(**s)).map(|s| s.to_string()).unwrap_or_else(|| "other text".to_string());
                 viol.push((format!("key value written to {} (in: {})", sink_kind(&sink), site), format!("key of {} found in {} at offset {}; preceding text: ...{}", guid, sink, pos, ctx.chars().rev().take(120).collect::<String>().chars().rev().collect::<String>())));
-                break;
             }
         }
     }
@@ -705,11 +780,8 @@ pub fn check_c12(run: &mut Run) {
         for res in cr.results.iter() {
             if let Some(m) = &res.resp {
                 scanned += 1;
-                for (guid, t) in taints.iter() {
-                    if find(&m.head.raw, t).is_some() || find(&m.body, t).is_some() {
-                        viol.push(("key value returned to a local client".into(), format!("key of {} in the response to tok={} ({})", guid, res.tok, cp.dst_name)));
-                        break;
-                    }
+                if let Some((_, ti)) = index.first_hit(&m.head.raw).or_else(|| index.first_hit(&m.body)) {
+                    viol.push(("key value returned to a local client".into(), format!("key of {} in the response to tok={} ({})", taints[ti].0, res.tok, cp.dst_name)));
                 }
             }
         }
@@ -719,11 +791,8 @@ pub fn check_c12(run: &mut Run) {
         let g = run.hosts.lock().unwrap();
         for rv in g.log.iter().filter(|r| r.kind == "telemetry") {
             scanned += 1;
-            for (guid, t) in taints.iter() {
-                if find(&rv.msg.body, t).is_some() {
-                    viol.push(("key value uploaded in a telemetry batch".into(), format!("key of {}", guid)));
-                    break;
-                }
+            if let Some((_, ti)) = index.first_hit(&rv.msg.body) {
+                viol.push(("key value uploaded in a telemetry batch".into(), format!("key of {}", taints[ti].0)));
             }
         }
     }
